@@ -422,6 +422,13 @@ pub fn gen_cf_program(rng: &mut Rng) -> (String, Vec<&'static str>) {
 
 const RULES: &[&str] = &["no-unreachable", "getter-return", "no-fallthrough"];
 
+const EXPR_ZOO: &[&str] = &[
+  "x", "this", "(x)", "tag`t`", "tag`a${x}b`", "`a${x}`", "`t`", "1", "\"s\"", "null", "true", "/r/g", "1n", "[x]", "[]", "({})", "({ a: x })", "({ x })", "x.y", "x[y]",
+  "x?.y", "x()", "x?.()", "new X", "new X()", "-x", "!x", "typeof x", "void x", "delete x.y", "x++", "--x", "x + y", "x && y", "x ?? y", "x ? y : z", "x = y",
+  "x += y", "(x, y)", "class {}", "class extends X {}", "function () {}", "() => x", "async () => x", "await x", "yield x", "x as any", "x!", "<T>x", "x satisfies T",
+  "import.meta", "new.target", "super.x", "import(\"m\")", "<div/>", "<div a={x}>{y}</div>", "[...x]", "({ ...x })", "x`t`", "x.y`t`", "x in y", "x instanceof y", "[x, y] = z", "({ x } = y)",
+];
+
 pub fn run_one(out: &mut Out, src: &str, ext: &str, feats: &[&'static str], case_no: usize) {
   let codes: Vec<String> = RULES.iter().map(|s| s.to_string()).collect();
   let (rules, log) = with_spy(rules_by_codes(&codes), true);
@@ -469,6 +476,20 @@ pub fn run(args: &Args) {
   // kept regression programs always run; then a slice of the repo's own control-flow snippets
   for s in corpus.iter().filter(|s| s.rule == "cf-regression") {
     run_one(&mut out, &s.src, "js", &["regression"], n);
+    n += 1;
+  }
+  // every kind of expression as the only thing a try block evaluates before it ends (what can throw decides whether the
+  // handler and the code after the statement are reachable), with identifier operands only
+  for (i, e) in EXPR_ZOO.iter().enumerate() {
+    let wrap = match *e {
+      x if x.contains("await ") => format!("async function z{i}() {{ try {{ return {x}; }} catch (e) {{ c(); }} a(); }}"),
+      x if x.contains("yield ") => format!("function* z{i}() {{ try {{ return {x}; }} catch (e) {{ c(); }} a(); }}"),
+      x if x.contains("super.") => format!("class Z{i} extends B {{ m() {{ try {{ return {x}; }} catch (e) {{ c(); }} a(); }} }}"),
+      x => format!("function z{i}() {{ try {{ return {x}; }} catch (e) {{ c(); }} a(); }}
+function y{i}() {{ try {{ {x}; throw e; }} catch {{ c(); }} finally {{ f(); }} a(); }}"),
+    };
+    let ext = if e.contains("<div") { "tsx" } else { "ts" };
+    run_one(&mut out, &wrap, ext, &["expression-zoo"], n);
     n += 1;
   }
   let mut m = 0;
